@@ -120,3 +120,61 @@ package keeper
 //@   emits err == nil ==> ev("finalize_token_withdrawal", "bridge_id", fmtU64(b), "output_index", fmtU64(req.OutputIndex), "l2_sequence", fmtU64(req.Sequence),
 //@        "from", req.From, "to", req.To, "l1_denom", d, "l2_denom", l2denom(b, d), "amount", intStr(a))                   // C02: event
 //@   assigns ProvenWithdrawals[(b, h)], bank.bal[(bridgeAddr(b), d)], bank.bal[(to, d)], events
+
+//@ func (MsgServer) CreateBridge
+//@   let id := seqOr1(NextBridgeId)
+//@   let creator := addrBytes(1, req.Creator)
+//@   requires NextBridgeId < 18446744073709551614                                                // A-CTR
+//@   ensures err == nil ==> ret0.BridgeId == id && NextBridgeId == id + 1                         // C10: fresh_id
+//@   ensures err == nil ==> BridgeConfigs == old(BridgeConfigs)[id := Some(req.Config)]           // C10: config_stored
+//@   ensures err == nil ==> req.Config.FinalizationPeriod > 0                                     // C05: period_positive
+//@   ensures err == nil ==> forall k `(Pair Bytes Bytes)` :: fst(k) != creator && fst(k) != moduleAddr("distribution") ==> bank.bal[k] == old(bank.bal)[k]   // C01: only_creator_pays
+//@   ensures err == nil ==> NextL1Sequences == old(NextL1Sequences) && NextOutputIndexes == old(NextOutputIndexes) && OutputProposals == old(OutputProposals)
+//@        && ProvenWithdrawals == old(ProvenWithdrawals) && TokenPairs == old(TokenPairs)        // C01,C10: nothing_prerecorded
+//@   assigns BridgeConfigs[id], BatchInfos[(id, *)], NextBridgeId, bank.bal, auth.acc, perm.admin, events
+
+//@ func (MsgServer) UpdateProposer
+//@   let b := req.BridgeId
+//@   let cfg := val(BridgeConfigs[b])
+//@   ensures err == nil ==> old(BridgeConfigs)[b] != None && (req.Authority == ms.authority || req.Authority == cfg.Proposer)    // C12: gov_or_proposer
+//@   ensures err == nil ==> BridgeConfigs[b] != None && val(BridgeConfigs[b]).Proposer == req.NewProposer                        // C12: takes_effect
+//@   ensures err == nil ==> val(BridgeConfigs[b]).FinalizationPeriod == cfg.FinalizationPeriod && val(BridgeConfigs[b]).Challenger == cfg.Challenger   // C05: period_unchanged
+//@   assigns BridgeConfigs[b], perm.admin, events
+
+//@ func (MsgServer) UpdateChallenger
+//@   let b := req.BridgeId
+//@   let cfg := val(BridgeConfigs[b])
+//@   ensures err == nil ==> old(BridgeConfigs)[b] != None && (req.Authority == ms.authority || req.Authority == cfg.Challenger)   // C12: gov_or_challenger
+//@   ensures err == nil ==> BridgeConfigs[b] != None && val(BridgeConfigs[b]).Challenger == req.Challenger                        // C12: takes_effect
+//@   ensures err == nil ==> val(BridgeConfigs[b]).FinalizationPeriod == cfg.FinalizationPeriod && val(BridgeConfigs[b]).Proposer == cfg.Proposer      // C05: period_unchanged
+//@   assigns BridgeConfigs[b], perm.admin, events
+
+//@ func (MsgServer) UpdateBatchInfo
+//@   let b := req.BridgeId
+//@   let cfg := val(BridgeConfigs[b])
+//@   ensures err == nil ==> old(BridgeConfigs)[b] != None && (req.Authority == ms.authority || req.Authority == cfg.Proposer)    // C12: gov_or_proposer
+//@   ensures err == nil ==> val(BridgeConfigs[b]).FinalizationPeriod == cfg.FinalizationPeriod && val(BridgeConfigs[b]).Proposer == cfg.Proposer && val(BridgeConfigs[b]).Challenger == cfg.Challenger   // C05,C12: roles_and_period_unchanged
+//@   assigns BridgeConfigs[b], BatchInfos[(b, *)], perm.admin, events
+
+//@ func (MsgServer) UpdateOracleConfig
+//@   let b := req.BridgeId
+//@   let cfg := val(BridgeConfigs[b])
+//@   ensures err == nil ==> old(BridgeConfigs)[b] != None && (req.Authority == ms.authority || req.Authority == cfg.Proposer)    // C12: gov_or_proposer
+//@   ensures err == nil ==> val(BridgeConfigs[b]).FinalizationPeriod == cfg.FinalizationPeriod && val(BridgeConfigs[b]).Proposer == cfg.Proposer && val(BridgeConfigs[b]).Challenger == cfg.Challenger   // C05,C12: roles_and_period_unchanged
+//@   ensures err == nil ==> val(BridgeConfigs[b]).OracleEnabled == req.OracleEnabled
+//@   assigns BridgeConfigs[b], events
+
+//@ func (MsgServer) UpdateMetadata
+//@   let b := req.BridgeId
+//@   let cfg := val(BridgeConfigs[b])
+//@   ensures err == nil ==> old(BridgeConfigs)[b] != None && (req.Authority == ms.authority || req.Authority == cfg.Proposer)    // C12: gov_or_proposer
+//@   ensures err == nil ==> val(BridgeConfigs[b]).FinalizationPeriod == cfg.FinalizationPeriod && val(BridgeConfigs[b]).Proposer == cfg.Proposer && val(BridgeConfigs[b]).Challenger == cfg.Challenger   // C05,C12: roles_and_period_unchanged
+//@   assigns BridgeConfigs[b], perm.admin, events
+
+//@ func (MsgServer) UpdateParams
+//@   ensures err == nil ==> req.Authority == ms.authority                                         // C12: gov_only
+//@   assigns Params
+
+//@ func (MsgServer) RecordBatch
+//@   ensures err == nil ==> addrOK(1, req.Submitter)
+//@   assigns events
